@@ -103,10 +103,11 @@ class TableChangeScore(BaseChangeScore):
 class FunctionChangeScore(BaseChangeScore):
     """score(s, k, e) = hash-like integer function of (s, k, e) and a key: ties, no table."""
 
-    def __init__(self, key=0, modulus=5, msize=1):
+    def __init__(self, key=0, modulus=5, msize=1, offset=0):
         self.key = key
         self.modulus = modulus
         self.msize = msize
+        self.offset = offset  # scores are value - offset, hence possibly negative
         super().__init__()
 
     @property
@@ -122,7 +123,7 @@ class FunctionChangeScore(BaseChangeScore):
 
     def _evaluate(self, cuts):
         s, k, e = cuts[:, 0], cuts[:, 1], cuts[:, 2]
-        return self.value(self.key, self.modulus, s, k, e).astype(float).reshape(-1, 1)
+        return (self.value(self.key, self.modulus, s, k, e) - self.offset).astype(float).reshape(-1, 1)
 
 
 class TableLocalAnomalyScore(BaseLocalAnomalyScore):
@@ -148,10 +149,11 @@ class TableLocalAnomalyScore(BaseLocalAnomalyScore):
 class FunctionLocalAnomalyScore(BaseLocalAnomalyScore):
     """score(s, a, b, e) = small integer function of the cut and a key (ties, no table)."""
 
-    def __init__(self, key=0, modulus=5, msize=1):
+    def __init__(self, key=0, modulus=5, msize=1, offset=0):
         self.key = key
         self.modulus = modulus
         self.msize = msize
+        self.offset = offset  # scores are value - offset, hence possibly negative
         super().__init__()
 
     @property
@@ -167,7 +169,7 @@ class FunctionLocalAnomalyScore(BaseLocalAnomalyScore):
 
     def _evaluate(self, cuts):
         s, a, b, e = cuts[:, 0], cuts[:, 1], cuts[:, 2], cuts[:, 3]
-        return self.value(self.key, self.modulus, s, a, b, e).astype(float).reshape(-1, 1)
+        return (self.value(self.key, self.modulus, s, a, b, e) - self.offset).astype(float).reshape(-1, 1)
 
 
 class L1Cost(BaseCost):
